@@ -374,6 +374,48 @@ theorem header_transfer (H : Bytes → Bytes) (pb TB : Cell) (hdr su : PCell) (h
             · simp only [cellView, PCell.info]
               exact ⟨by rw [← ek', hks], by rw [← eb', e2]⟩
 
+/-- completeness of the state-hash read-out: a spec-valid (possibly pruned) block tree whose third reference is a Merkle
+update cell `.mk 4 ub [o, n]` storing in its data bytes 33..64 the level-0 hash of its second child, and whose object
+reports `blk` as level-0 hash, passes `check_block_header_proof(·, blk, True)`, which returns that hash -/
+theorem header_complete (H : Bytes → Bytes) (k : Int) (b ub : Bits) (x0 x1 o n : Cell) (rest : List Cell) (r0 : PCell)
+    (blk : Bytes) (sn : Spec.SInfo)
+    (wf : TreeWF H (.mk k b (x0 :: x1 :: .mk 4 ub [o, n] :: rest)))
+    (hobj : PCell.ofCell H (.mk k b (x0 :: x1 :: .mk 4 ub [o, n] :: rest)) = some r0)
+    (hblk : r0.info.getHash 0 = some blk) (hsn : specInfo H n = some sn)
+    (hdata : pySlice (dataBytes ub) 33 65 = sn.hashAt 0) :
+    checkBlockHeaderProofState r0 blk = some (sn.hashAt 0) := by
+  simp only [PCell.ofCell, PCell.ofCells, Option.bind_eq_bind, Option.bind_eq_some_iff, Option.pure_def,
+    Option.some.injEq] at hobj
+  obtain ⟨rs, ⟨p0, _, rs1, ⟨p1, _, rs2, ⟨psu, ⟨rsu, ⟨po, _, rsn, ⟨pn, hpn, rs3, hnil, rfl⟩, rfl⟩, iu, hiu, rfl⟩, prest, _, rfl⟩,
+    rfl⟩, rfl⟩, i, _, rfl⟩ := hobj
+  cases hnil
+  obtain ⟨e1, e2, _⟩ := construct_fields H 4 ub _ iu hiu
+  have wfn : TreeWF H n := by
+    rw [TreeWF] at wf
+    have w1 := wf.1
+    rw [TreesWF, TreesWF, TreesWF] at w1
+    have w2 := w1.2.2.1
+    rw [TreeWF] at w2
+    have w3 := w2.1
+    rw [TreesWF, TreesWF] at w3
+    exact w3.2.1
+  obtain ⟨inn, s, hi, hs, hags⟩ := tree_agrees H n wfn
+  rw [hsn] at hs; cases hs
+  have hinfo : pn.info = inn := by
+    have := ofCell_info H n
+    rw [hpn, hi] at this
+    simpa using this
+  have hh : pn.info.getHash 0 = some (sn.hashAt 0) := by rw [hinfo, (hags.2 0).1]
+  have hb : checkBlockHeaderProof (.mk i (p0 :: p1 :: PCell.mk iu [po, pn] :: prest)) blk = true := by
+    simpa [checkBlockHeaderProof, PCell.info] using hblk
+  unfold checkBlockHeaderProofState
+  rw [if_pos hb]
+  simp only [PCell.refs, List.getElem?_cons_succ, List.getElem?_cons_zero, Option.bind_eq_bind, Option.bind_some, hh]
+  have hd : pySlice (PCell.mk iu [po, pn]).data 33 65 = sn.hashAt 0 := by
+    simp only [PCell.data, PCell.info, e2]; exact hdata
+  have hk : (PCell.mk iu [po, pn]).info.kind = kMerkleUpdate := by simp only [PCell.info, e1]; rfl
+  simp [hd, hk]
+
 /-! ### building the hypotheses for trees of ordinary cells (used by the non-vacuity examples) -/
 
 theorem shape_ord (bits : Bits) (refs : List Cell) (h : refs.length ≤ 4) (hs : Shapes refs) : Shape (.mk (-1) bits refs) := by
